@@ -603,7 +603,8 @@ def c10_configs(env):
     """menu entries + the model module's extra generator configurations."""
     import importlib
 
-    out = {e: None for e in envs.entries(env)}
+    # harness-side boundary-instance generators are not shipped generators: C10 has nothing to say about them
+    out = {e: None for e in envs.entries(env) if not envs.meta(env, e).get("harness_gen")}
     try:
         mod = importlib.import_module(f"vf.models.{base._MODULES[env]}")
         out.update(getattr(mod, "EXTRA_INSTANCE_CONFIGS", {}))
@@ -630,7 +631,7 @@ def c10_work_items(tier, flt):
         labels = list(c10_configs(env))
         if tier == "quick":
             extras = [l for l in labels if l not in envs.entries(env)]
-            labels = envs.quick_entries(env) + extras
+            labels = [l for l in envs.quick_entries(env) if l in labels] + extras
         if flt and flt.get("entry"):
             labels = [l for l in labels if l in flt["entry"]]
         for label in labels:
